@@ -29,7 +29,7 @@ import (
 //	{op: "one", base, perm} -> one observation (this is what a fresh process executes)
 //
 // base.set >= 0 selects a set of linked files (all registered files of one directory; taken modulo the number of sets),
-// base.set < 0 a random schema RandSchema(base.seed); base.par selects a parameter combination
+// base.set < 0 with base.opt a custom-option request shape (optreq.go), otherwise a random schema RandSchema(base.seed); base.par selects a parameter combination
 // (API level x import-path mode x annotate_code; modulo the number of combinations); perm permutes file_to_generate
 // (0 as listed, 1 reversed, 2 rotated by one).  key = SHA-256 of the serialized request, dig = SHA-256 of the
 // serialized response exactly as the plugin would write it, files = per generated file the SHA-256 of its content.
@@ -103,6 +103,11 @@ func permute(files []string, perm int) []string {
 // buildRequest builds the CodeGeneratorRequest for a base and a permutation, the way protoc would: proto_file holds
 // the transitive closure in topological order, visited in file_to_generate order.
 func buildRequest(base map[string]any, perm int) *pluginpb.CodeGeneratorRequest {
+	defer func() { // building the request is the harness's business: a failure here is never a verdict on the generator
+		if r := recover(); r != nil {
+			panic(fmt.Sprint("harness: request builder: ", r))
+		}
+	}()
 	par := core.Int(base["par"])
 	if par < 0 {
 		par = -par
@@ -112,7 +117,12 @@ func buildRequest(base map[string]any, perm int) *pluginpb.CodeGeneratorRequest 
 	req := &pluginpb.CodeGeneratorRequest{CompilerVersion: &pluginpb.Version{Major: proto.Int32(5), Minor: proto.Int32(29), Patch: proto.Int32(1)}}
 	local := map[string]*descriptorpb.FileDescriptorProto{}
 	var targets []string
-	if set < 0 {
+	if opt := core.Map(base["opt"]); set < 0 && opt != nil { // a custom-option request shape (GenRequest.tla)
+		for _, fd := range optFiles(opt) {
+			local[fd.GetName()] = fd
+			targets = append(targets, fd.GetName())
+		}
+	} else if set < 0 {
 		fd := RandSchema(uint64(core.Int(base["seed"])), "")
 		local[fd.GetName()] = fd
 		targets = []string{fd.GetName()}
@@ -247,6 +257,9 @@ func observeFresh(base map[string]any, perm int) core.Case {
 	}
 	defer os.RemoveAll(dir)
 	b2 := core.Case{"set": base["set"], "seed": base["seed"], "par": base["par"]}
+	if base["opt"] != nil {
+		b2["opt"] = base["opt"]
+	}
 	if core.Int(base["set"]) >= 0 { // spare the child the corpus scan
 		ts := []any{}
 		for _, t := range corpus()[core.Int(base["set"])%len(corpus())] {
@@ -322,8 +335,15 @@ func genExec(c core.Case) core.Case {
 func genGen(r *rand.Rand, n int, emit func(core.Case)) {
 	for i := 0; i < n; i++ {
 		base := core.Case{"set": r.IntN(len(corpus())), "seed": 0, "par": r.IntN(numParams)}
-		if r.IntN(3) == 0 {
+		switch r.IntN(4) {
+		case 0:
 			base["set"], base["seed"] = -1, 1+r.IntN(1<<20)
+		case 1: // a custom-option request shape
+			typ := optTypes[r.IntN(len(optTypes))]
+			ns := optCounts[typ]
+			base["set"] = -2
+			base["opt"] = core.Case{"site": optSites[r.IntN(len(optSites))], "typ": typ, "n": ns[r.IntN(len(ns))],
+				"decl": []string{"same", "imported"}[r.IntN(2)]}
 		}
 		var steps []any
 		for k, m := 0, 6+r.IntN(7); k < m; k++ { // the same request many times: Go randomises every map iteration anew
